@@ -196,7 +196,7 @@ def main():
             shutil.copy(os.path.join(keep, f), os.path.join(VERIF, "evidence", f))
         shutil.rmtree(keep, ignore_errors=True)
     prev = {}
-    path = os.path.join(VERIF, "evidence", "mutants.json")
+    path = os.path.join(VERIF, "reports", "mutants.json")
     if os.path.exists(path):
         try:
             prev = {r["id"]: r for r in json.load(open(path))["results"]}
